@@ -154,6 +154,11 @@ func (self *visitorUserNode) decode(bytes []byte, desc *proto.TypeDescriptor) ([
 	if len(bytes) < 4 {
 		bytes = append(make([]byte, 0, 8), bytes...)
 	}
+	// NOTICE: likewise it looks at the byte behind a leading zero (check_leading_zero) without checking that there is one.
+	// A document which ends in '0' is cut off anyway
+	if n := len(bytes); n > 0 && bytes[n-1] == '0' {
+		bytes = append(make([]byte, 0, n+8), bytes...)
+	}
 	str := rt.Mem2Str(bytes)
 	if err := ast.Preorder(str, self, nil); err != nil {
 		return nil, err
